@@ -32,6 +32,9 @@ static void gen(Plan* p, Rng* r, int tier, long idx) {
     plan_set(p, "seg_in", rng_coin(r, 1, 3) ? 1 : (int64_t)(1 + rng_chunk(r, 4096, 64)));
     plan_set(p, "seg_out", rng_coin(r, 1, 4) ? 1 + (int64_t)rng_below(r, 8) : (int64_t)(1 + rng_chunk(r, 1 << 17, 1 << 12)));
     plan_set(p, "flip_seed", (int64_t)(rng_u64(r) >> 2));
+    if (shape == 9 && rng_coin(r, 1, 2)) plan_set(p, "empty_last_block", 1);       /* flush everything, then end: the frame closes with an empty last block */
+    if (rng_coin(r, 1, 3)) plan_set(p, "ignore_checksum", 1);                    /* decoder parameters are part of "any decoding entry point" */
+    if (rng_coin(r, 1, 6)) plan_set(p, "no_huf_asm", 1);
 }
 
 typedef struct { const Plan* p; Sess s; size_t* frame_ends; int* frame_skippable; int nfe; int magicless; long cuts, flips, accepted_ok; } T;
@@ -40,6 +43,8 @@ static ZSTD_DCtx* mk_dctx(T* t) {
     ZSTD_DCtx* d = ZSTD_createDCtx_advanced(sess_cmem());
     if (t->magicless) ZSTD_DCtx_setParameter(d, ZSTD_d_format, ZSTD_f_zstd1_magicless);
     if (t->s.dict) ZSTD_DCtx_loadDictionary(d, t->s.dict, t->s.dict_size);
+    if (plan_get(t->p, "ignore_checksum", 0)) ZSTD_DCtx_setParameter(d, ZSTD_d_forceIgnoreChecksum, ZSTD_d_ignoreChecksum);
+    if (plan_get(t->p, "no_huf_asm", 0)) ZSTD_DCtx_setParameter(d, ZSTD_d_disableHuffmanAssembly, 1);
     return d;
 }
 static int frames_in_prefix(T* t, size_t k, int* at_boundary) { int i, n = 0; *at_boundary = (k == 0); for (i = 0; i < t->nfe; i++) { if (t->frame_ends[i] <= k) n++; if (t->frame_ends[i] == k) *at_boundary = 1; } return n; }
@@ -86,6 +91,7 @@ static void check_cut_bufferless(T* t, size_t k, uint8_t* out, size_t outcap) {
     if (t->nfe != 1 || t->frame_skippable[0] || t->magicless) return;
     (void)frames_in_prefix(t, k, &boundary); if (boundary) return;
     d = ZSTD_createDCtx_advanced(sess_cmem());
+    if (plan_get(t->p, "ignore_checksum", 0)) ZSTD_DCtx_setParameter(d, ZSTD_d_forceIgnoreChecksum, ZSTD_d_ignoreChecksum);
     if (t->s.dict) ZSTD_decompressBegin_usingDict(d, t->s.dict, t->s.dict_size); else ZSTD_decompressBegin(d);
     for (;;) {
         size_t const want = ZSTD_nextSrcSizeToDecompress(d); size_t r;
@@ -113,7 +119,7 @@ static void check_mutation(T* t, ZSTD_DCtx* d, const uint8_t* mut, size_t n, uin
         if (f.has_fcs) produced = (size_t)f.fcs;
         else { if (refdec_frame(NULL, 0, mut + ip, f.total_size, t->s.dict, t->s.dict_size, t->magicless, &info) == 0) produced = info.produced; else { uint8_t* tmp = (uint8_t*)malloc(outcap + 1); if (refdec_frame(tmp, outcap, mut + ip, f.total_size, t->s.dict, t->s.dict_size, t->magicless, &info) != 0) { free(tmp); refdec_info_free(&info); fw_free(&f); return; } produced = info.produced; free(tmp); } refdec_info_free(&info); }
         if (op + produced > r) sim_violation("size_lie_accepted", "%s at %zu: success with %zu bytes although the frames declare more", what, where, r);
-        if (f.checksum_flag) { uint32_t const c = (uint32_t)ref_xxh64(out + op, produced, 0); if (c != f.stored_checksum) sim_violation("checksum_damage_accepted", "%s at %zu: decode succeeded although XXH64 of the output (%08x) differs from the stored checksum (%08x)", what, where, c, f.stored_checksum); }
+        if (f.checksum_flag && !plan_get(t->p, "ignore_checksum", 0)) { uint32_t const c = (uint32_t)ref_xxh64(out + op, produced, 0); if (c != f.stored_checksum) sim_violation("checksum_damage_accepted", "%s at %zu: decode succeeded although XXH64 of the output (%08x) differs from the stored checksum (%08x)", what, where, c, f.stored_checksum); }
         op += produced; ip += f.total_size; fw_free(&f);
     }
     if (op != r) sim_violation("size_lie_accepted", "%s at %zu: decode returned %zu bytes, frames declare %zu", what, where, r, op);
@@ -133,7 +139,7 @@ static void exec(const Plan* p) {
       for (f = 0; f < nframes; f++) {
         size_t n = f == nframes - 1 ? t.s.in_size - pos : per;
         if (plan_get(p, "stream_compress", 0)) {
-            ZSTD_inBuffer in; ZSTD_outBuffer o; size_t half = n / 2; in.src = t.s.in + pos; in.size = half; in.pos = 0; o.dst = dst; o.size = ZSTD_compressBound(t.s.in_size) + 64; o.pos = 0;
+            ZSTD_inBuffer in; ZSTD_outBuffer o; size_t half = plan_get(p, "empty_last_block", 0) ? n : n / 2; in.src = t.s.in + pos; in.size = half; in.pos = 0; o.dst = dst; o.size = ZSTD_compressBound(t.s.in_size) + 64; o.pos = 0;
             r = ZSTD_compressStream2(c, &o, &in, ZSTD_e_flush); if (!ZSTD_isError(r)) { in.size = n; r = ZSTD_compressStream2(c, &o, &in, ZSTD_e_end); }
             if (ZSTD_isError(r) || r != 0) sim_violation("compress_error", "stream compression failed: %s", ZSTD_isError(r) ? ZSTD_getErrorName(r) : "incomplete"); r = o.pos;
         } else { r = ZSTD_compress2(c, dst, ZSTD_compressBound(t.s.in_size) + 64, t.s.in + pos, n); if (ZSTD_isError(r)) sim_violation("compress_error", "compress2 failed: %s", ZSTD_getErrorName(r)); }
@@ -173,7 +179,7 @@ static void exec(const Plan* p) {
               if (fw.checksum_flag) for (b = 0; b < 32; b++) {
                   memcpy(m, t.s.wire, t.s.wire_size); m[fend - 4 + b / 8] ^= (uint8_t)(1 << (b % 8)); ZSTD_DCtx_reset(d, ZSTD_reset_session_only);
                   r = ZSTD_decompressDCtx(d, out, outcap, m, t.s.wire_size);
-                  if (!ZSTD_isError(r)) sim_violation("checksum_damage_accepted", "frame %d: stored checksum bit %d flipped, decode still succeeds", fi, b);
+                  if (!ZSTD_isError(r) && !plan_get(p, "ignore_checksum", 0)) sim_violation("checksum_damage_accepted", "frame %d: stored checksum bit %d flipped, decode still succeeds", fi, b);
                   t.flips++;
                   if (b == 0) { ZSTD_DCtx* di = mk_dctx(&t); ZSTD_DCtx_setParameter(di, ZSTD_d_forceIgnoreChecksum, ZSTD_d_ignoreChecksum); r = ZSTD_decompressDCtx(di, out, outcap, m, t.s.wire_size);
                       if (ZSTD_isError(r) || r != t.s.in_size) sim_violation("ignore_checksum_broken", "forceIgnoreChecksum: decode of a frame with a damaged checksum fails: %s", ZSTD_isError(r) ? ZSTD_getErrorName(r) : "size"); ZSTD_freeDCtx(di); }
